@@ -1,0 +1,10 @@
+//go:build verif
+
+// Contracts for the verification machinery in /verif (comment only, no code).
+package common
+
+// a string comparison: no effect on any scheduler state (the comparison itself - strings.EqualFold - is library code)
+//@ func IsRecoveryQueue(queueName string) (r bool)
+//@   props C17
+//@   trusted "wrapper over strings.EqualFold(queueName, RecoveryQueueFull): no effect"
+//@   pure
